@@ -144,9 +144,9 @@ Ltac inv_msgs :=
 Ltac md_terms := cbn [Model.k_md Model.k_phase start_md elected_md initial_md Model.c_term] in *.
 
 Lemma step_inv_terms v w a w' :
-  step v w a = Some w' -> a <> ACoordStoreTruncate -> inv_terms w -> inv_terms w'.
+  step v w a = Some w' -> a <> ACoordStoreTruncate -> a <> ACoordStoreGiveUp -> inv_terms w -> inv_terms w'.
 Proof.
-  intros H Hna [Hd Hmd Hnt Hbl Hun Hph Hwl].
+  intros H Hna Hng [Hd Hmd Hnt Hbl Hun Hph Hwl].
   destruct w as [dur co inc nodes msgs wl ans bl]. world_fields.
   destruct Hd as [d ->].
   assert (Hnt' : forall i n t, In (MNewTerm i n t) msgs -> t <= c_term d) by (intros; eapply Hnt; eauto).
@@ -195,21 +195,28 @@ Proof.
                              exists i, fm; apply in_snoc; left; apply has_msg_in; exact Hm end ]]).
 Qed.
 
-Lemma store_atomic_cons a tl : store_atomic (a :: tl) -> a <> ACoordStoreTruncate /\ store_atomic tl.
-Proof. unfold store_atomic. cbn. intros H. split; [intro; subst; apply H; left; reflexivity | intro; apply H; right; assumption]. Qed.
+Lemma store_sound_cons a tl :
+  store_sound (a :: tl) -> a <> ACoordStoreTruncate /\ a <> ACoordStoreGiveUp /\ store_sound tl.
+Proof.
+  unfold store_sound, store_atomic, store_persists. cbn. intros [H1 H2]. repeat split.
+  - intro; subst; apply H1; left; reflexivity.
+  - intro; subst; apply H2; left; reflexivity.
+  - intro; apply H1; right; assumption.
+  - intro; apply H2; right; assumption.
+Qed.
 
 Lemma run_inv_terms v tr : forall w w',
-  run v w tr = Some w' -> store_atomic tr -> inv_terms w -> inv_terms w'.
+  run v w tr = Some w' -> store_sound tr -> inv_terms w -> inv_terms w'.
 Proof.
   induction tr as [|a tl IH]; cbn; intros w w' H Hat Hi; [inversion H; subst; auto|].
-  destruct (step v w a) eqn:E; [|discriminate]. apply store_atomic_cons in Hat. destruct Hat as [Ha Hat].
+  destruct (step v w a) eqn:E; [|discriminate]. apply store_sound_cons in Hat. destruct Hat as (Ha & Hg & Hat).
   eapply IH; eauto. eapply step_inv_terms; eauto.
 Qed.
 
 (* C05: the coordinator never issues a term it has not first made durable.  Under [store_atomic], at every point of
    every trace, every NewTerm and BecomeLeader ever sent carries a term <= the term in the durable metadata cell. *)
 Theorem term_durable_before_use v c0 nodes tr w :
-  run v (init_world c0 nodes) tr = Some w -> store_atomic tr ->
+  run v (init_world c0 nodes) tr = Some w -> store_sound tr ->
   exists d, w_dur w = DCell d /\
     (forall i n t, In (MNewTerm i n t) (w_msgs w) -> t <= c_term d) /\
     (forall i n t fm, In (MBecomeLeader i n t fm) (w_msgs w) -> t <= c_term d).
@@ -221,7 +228,7 @@ Qed.
 (* C05: a (re)started coordinator never reuses or goes below a term already sent.  Whenever an election starts, in
    whatever incarnation, its term is strictly above every term that any incarnation ever put on the wire. *)
 Theorem restart_never_reuses v c0 nodes tr w a w' k' :
-  run v (init_world c0 nodes) tr = Some w -> store_atomic tr ->
+  run v (init_world c0 nodes) tr = Some w -> store_sound tr ->
   (a = ACoordStartElection \/ exists from to, a = ACoordSwap from to) ->
   step v w a = Some w' -> w_coord w' = Some k' ->
   (forall i n t, In (MNewTerm i n t) (w_msgs w) -> t < c_term (k_md k')) /\
@@ -276,7 +283,7 @@ Qed.
 
 (* C05: for each shard at most one node ever serves as leader in a given term. *)
 Theorem one_leader_per_term v c0 nodes tr w :
-  run v (init_world c0 nodes) tr = Some w -> store_atomic tr ->
+  run v (init_world c0 nodes) tr = Some w -> store_sound tr ->
   (forall n, n_ctrl (nodes n) = None) ->
   (* the ghost record is complete: every node that is LEADER now is in it *)
   (forall n k t, n_ctrl (w_nodes w n) = Some (mkCtrl k t Leader) -> In (n, t) (w_wasleader w)) /\
@@ -549,8 +556,8 @@ Proof.
                          | specialize (Hph k' Ek); destruct (k_phase k'); auto;
                            first [ eapply fencing_ok_mono; [exact Hmono | exact Hph]
                                  | eapply decided_ok_mono; [exact Hmono | exact Hph] ] ]]).
-  - (* Store: newTermQuorum starts *)
-    intros k' Ek; injection Ek as <-; cbn [Model.k_md Model.k_phase]. apply fencing_ok_start; assumption.
+  (* Store (or the give-up of its retry loop): newTermQuorum starts *)
+  all: try (solve [intros k' Ek; injection Ek as <-; cbn [Model.k_md Model.k_phase]; apply fencing_ok_start; assumption]).
   - (* one response taken from the channel *)
     intros k' Ek; injection Ek as <-; cbn [Model.k_md Model.k_phase].
     match goal with Hb : _ && _ && _ = true |- _ =>
